@@ -15,6 +15,8 @@ def workload(tier, seed, scale=1.0):
     quick = tier == 'quick'
     cmds = [cmd_ident(), cmd_signops()]
     mags = [0, 1, 2, M64, 1 << 64, (1 << 64) + 1, (1 << 128) - 1, 1 << 63, 1 << 127] + [rand_digits(rnd, n, k) for n in (1, 2, 3, 5, 8, 20, 40) for k in ((0,) if quick else (0, 1, 2, 4))]
+    from ..core import special_values
+    mags += [v for v in special_values() if v not in mags][::(3 if quick else 1)]
     for m in mags:
         for s in (1, -1):
             cmds.append(cmd_signs(s * m, cell=('signs', s if m else 0, min(ndig(m), 6))))
